@@ -233,7 +233,7 @@ func c10StdWorker(run *common.Run, sh common.Shard, thorough bool) {
 			}
 		}
 		sel = keep
-		batchSize = 3
+		batchSize = 5
 		patterns = []c10Pattern{c10PatternByName("A"), c10PatternByName("F")}
 	}
 	batches := c09Batches(sel, batchSize)
@@ -328,6 +328,7 @@ func c10StdWorker(run *common.Run, sh common.Shard, thorough bool) {
 			run.Count("std_injected_ignore_comments", st.Ignores)
 			run.Count("std_injected_on_generic_declarations", st.Generic)
 			run.Count("std_injection_sites_skipped_not_first_on_line", st.Skipped)
+			pkgs = nil
 			for _, cfg := range configs {
 				if time.Now().After(deadline) {
 					continue
@@ -341,9 +342,13 @@ func c10StdWorker(run *common.Run, sh common.Shard, thorough bool) {
 					c10FlushWorker(run)
 				})
 				tload := time.Now()
-				pkgs, lerrs := c10Load(dir, roots, overlay)
-				if len(lerrs) > 0 {
-					common.Fatalf("std batch %v does not load after injection %s (only comments were inserted): %v", roots, pat.Name, lerrs[:1])
+				if pkgs == nil {
+					// one load per pattern; the loaded packages are read-only and serve both configurations
+					var lerrs []string
+					pkgs, lerrs = c10Load(dir, roots, overlay)
+					if len(lerrs) > 0 {
+						common.Fatalf("std batch %v does not load after injection %s (only comments were inserted): %v", roots, pat.Name, lerrs[:1])
+					}
 				}
 				tl := time.Now()
 				diags, errs, ptxt, stack := c10Analyze(pkgs)
@@ -382,7 +387,7 @@ func c10StdWorker(run *common.Run, sh common.Shard, thorough bool) {
 		}
 	}
 	if done < total {
-		run.NotExhaustive(fmt.Sprintf("time budget: shard %d completed %d of %d std loads", sh.I, done, total))
+		run.NotExhaustive(fmt.Sprintf("time budget: shard %d completed %d of %d std analyses", sh.I, done, total))
 	}
 	c09SetInProcessConfig(c09Configs[0])
 }
@@ -473,7 +478,7 @@ func c10OnDisk(run *common.Run, root string, thorough bool, deadline time.Time) 
 	basePkgs, dropped := c09List(base, patterns)
 	run.Count("module_packages_selected", len(basePkgs))
 	run.Count("module_packages_dropped_do_not_load_offline", len(dropped))
-	batches := c09Batches(basePkgs, 40)
+	batches := c09Batches(basePkgs, 120)
 	drivers := []drv.Driver{drv.Vet, drv.Standalone}
 	configs := c09Configs[:2]
 	workers := 5
@@ -598,12 +603,17 @@ func c10OnDisk(run *common.Run, root string, thorough bool, deadline time.Time) 
 			in[p.Path] = true
 		}
 		if crash := c10CrashText(out, c.d); crash != "" {
-			// attribute to packages: run every package of the batch on its own
+			// attribute to a package: run the packages of the batch on their own until one crashes
+			// (at most three such searches per distinct panic line; a gross defect crashes everywhere)
 			found := false
 			for _, p := range b {
+				if found || !c10Attribute(crash) {
+					break
+				}
 				o1, _ := c10RunWithBound(drv.Req{Driver: c.d, Dir: c.dir, Flags: c.cfg.Flags, Env: c10DriverEnv, Patterns: []string{p.Path}}, bound)
 				if o1 != nil && c10CrashText(o1, c.d) != "" {
 					found = true
+					c10Attributed(crash)
 					c10ReportCrash(run, p.Path, c10CrashText(o1, c.d), c10StackOf(o1), map[string]any{"pattern": c.pat.Name, "config": c.cfg.Name, "driver": c.d.String(), "cmd": o1.Cmd})
 				}
 			}
@@ -676,6 +686,24 @@ func c10CrashText(o *drv.Out, d drv.Driver) string {
 		return "analyzer error: " + strings.Join(o.Errors, "; ")
 	}
 	return ""
+}
+
+var (
+	c10AttrMu    sync.Mutex
+	c10AttrCount = map[string]int{}
+)
+
+// c10Attribute says whether another per-package search for this panic is worthwhile.
+func c10Attribute(crash string) bool {
+	c10AttrMu.Lock()
+	defer c10AttrMu.Unlock()
+	return c10AttrCount[c10PanicLine(crash)] < 3
+}
+
+func c10Attributed(crash string) {
+	c10AttrMu.Lock()
+	c10AttrCount[c10PanicLine(crash)]++
+	c10AttrMu.Unlock()
 }
 
 func c10StackOf(o *drv.Out) string {
